@@ -1629,7 +1629,7 @@ void print_svalue (svalue_t * arg) {
         tell_object (command_giver, arg->u.string);
         break;
       case T_OBJECT:
-        sprintf (tbuf, "OBJ(/%s)", arg->u.ob->name);
+        snprintf (tbuf, sizeof (tbuf), "OBJ(/%s)", arg->u.ob->name); /* a virtual object's name can be longer than tbuf */
         tell_object (command_giver, tbuf);
         break;
       case T_NUMBER:
